@@ -12,6 +12,7 @@ from collections import OrderedDict, defaultdict
 from collections.abc import Mapping
 from inspect import Signature, Parameter, signature, currentframe
 import sys
+import types
 import typing
 import hashlib
 from json import JSONDecodeError
@@ -242,7 +243,12 @@ def _or_fields(first, other):
         return AnyOf[first, other]
     if isinstance(other, (str, int, float, bool, list, set, dict, tuple)):
         return AnyOf[first, Enum(values=[other])]
-    converted = convert_basic_types(other)
+    if other is None:
+        return AnyOf[first, None]
+    try:
+        converted = get_typing_lib_info(other)
+    except TypeError:
+        converted = None
     if converted:
         return AnyOf[first, converted]
     raise TypeError(f"| is Supported only between field types; Got {first} and {other}")
@@ -827,6 +833,9 @@ def _mapped_type_of_mapped_args(mapped_type, mapped_args):
 def get_typing_lib_info(v):
     if v is type(None):
         return NoneField()
+    if isinstance(v, getattr(types, "UnionType", ())):
+        # PEP 604: "int | str" is a types.UnionType; treat it exactly like typing.Union[int, str]
+        v = typing.Union[v.__args__]
     if isinstance(v, Field):
         return v
     if inspect.isclass(v) and issubclass(v, Field):
@@ -916,12 +925,17 @@ def _handle_typing_optional(k, optional_fields, the_type):
 
 
 def _evaluate_if_future_annotations(cls_dict, previous_frame, v):
-    if isinstance(v, str) and len(v) < 50:
+    if isinstance(v, str):
         # The evil eval is to accommodate "from __future__ import annotations".
         module_name = cls_dict["__module__"]
         globals_from_modules = (
             sys.modules[module_name].__dict__ if module_name in sys.modules else None
         )
+        future_import = getattr(
+            (globals_from_modules or {}).get("annotations"), "compiler_flag", None
+        )
+        if len(v) >= 50 and not future_import:
+            return v
         v = eval(  # pylint: disable=eval-used
             v,
             globals_from_modules,
